@@ -5,6 +5,7 @@ import (
 	"fmt"
 	"math"
 	"math/big"
+	"sort"
 
 	"github.com/aclements/go-moremath/stats"
 
@@ -426,7 +427,7 @@ func hasSpread(xs []float64) bool {
 func c04Run(r *mon.Run) {
 	r.Rule("random samples of 2..40 finite values, |x|<=1e6, relative spread >=1e-6, equal/unequal sizes and variances, ties, one constant sample; mu0 from within 1e-9 standard errors of the mean to 30+ standard errors away; 3 alternatives; Sample, *StreamStats and a plain struct as TTestSample; related calls: swapped samples, power-of-two scaling, shifts; error inputs; MeanCI for c in [0,1] incl. 0,1,1e-12,1-1e-12. Non-trivial = hits a class; distinct by hash of inputs.")
 	r.Assume("means/variances/T/DoF recomputed at 384 bits from the exact float64 inputs; Student-t reference: closed form (integer DoF) / gonum mathext (Welch)", "tolerances follow the conditioning |mean|/sd of the inputs (DESIGN section 4b)")
-	r.Gate("welch-unequal-n-and-variance", "tiny-T", "huge-T", "kind-sample", "kind-stream", "kind-struct",
+	r.Gate("equal-variances-unequal-sizes", "welch-unequal-n-and-variance", "tiny-T", "huge-T", "kind-sample", "kind-stream", "kind-struct",
 		"error-"+stats.ErrSampleSize.Error(), "error-"+stats.ErrZeroVariance.Error(), "error-"+stats.ErrMismatchedSamples.Error(),
 		"meanci-empty", "meanci-c<=0", "meanci-infinite", "meanci-regular", "one-sample-zero-variance", "meanci-tiny-c", "meanci-c-near-1")
 	tests := []string{"two", "welch", "paired", "one"}
@@ -445,6 +446,20 @@ func c04Run(r *mon.Run) {
 		}
 		c.X1 = c04Data(rng, n1)
 		c.X2 = c04Data(rng, n2)
+		if (test == "two" || test == "welch") && i%16 == 5 && len(c04EqualVar) > 0 {
+			// unequal sizes with bit-identical variances (exact small-integer
+			// data, scaled by a power of two): pooled and Welch DoF differ here
+			pr := c04EqualVar[rng.Intn(len(c04EqualVar))]
+			f := math.Ldexp(1, rng.Range(-6, 6))
+			off := float64(rng.Range(-8, 8))
+			c.X1, c.X2 = scaled(pr[0], f, off*f), scaled(pr[1], f, float64(rng.Range(-8, 8))*f)
+			if rng.Bool() {
+				c.X1, c.X2 = c.X2, c.X1
+			}
+			rng.ShuffleF(c.X1)
+			rng.ShuffleF(c.X2)
+			w.Hit("equal-variances-unequal-sizes")
+		}
 		switch rng.Intn(6) {
 		case 0: // same location: small T
 			m1, m2 := ref.F64(ref.MomentsOf(c.X1).Mean), ref.F64(ref.MomentsOf(c.X2).Mean)
@@ -610,6 +625,59 @@ func c04Run(r *mon.Run) {
 		c04Judge(w, c)
 	})
 }
+
+// c04EqualVar: pairs of small-integer samples of different sizes whose sample
+// variances are exactly equal (found by enumeration at start-up).
+var c04EqualVar = func() [][2][]float64 {
+	type key struct{ num, den int } // variance as a reduced fraction SS*n... compared exactly via cross-multiplication
+	byVar := map[[2]int][][]float64{}
+	gcd := func(a, b int) int {
+		for b != 0 {
+			a, b = b, a%b
+		}
+		return a
+	}
+	var rec func(cur []int, minv int)
+	rec = func(cur []int, minv int) {
+		if n := len(cur); n >= 2 {
+			sum, sq := 0, 0
+			for _, v := range cur {
+				sum += v
+				sq += v * v
+			}
+			// var = (n*sq - sum^2) / (n*(n-1))
+			num, den := n*sq-sum*sum, n*(n-1)
+			if num > 0 {
+				g := gcd(num, den)
+				xs := make([]float64, n)
+				for i, v := range cur {
+					xs[i] = float64(v)
+				}
+				byVar[[2]int{num / g, den / g}] = append(byVar[[2]int{num / g, den / g}], xs)
+			}
+		}
+		if len(cur) == 6 {
+			return
+		}
+		for v := minv; v <= 4; v++ {
+			rec(append(cur, v), v)
+		}
+	}
+	rec(nil, 0)
+	var out [][2][]float64
+	for _, list := range byVar {
+		for i := 0; i < len(list) && len(out) < 4000; i++ {
+			for j := i + 1; j < len(list); j++ {
+				if len(list[i]) != len(list[j]) && stats.Variance(list[i]) == stats.Variance(list[j]) {
+					out = append(out, [2][]float64{list[i], list[j]})
+					break
+				}
+			}
+		}
+	}
+	sort.Slice(out, func(a, b int) bool { return fmt.Sprint(out[a]) < fmt.Sprint(out[b]) })
+	return out
+}()
 
 func scaled(xs []float64, f, off float64) []float64 {
 	out := make([]float64, len(xs))
